@@ -138,6 +138,8 @@ type c06Conn struct {
 	log      []c06Ev // events in the order they were consumed (data events split as the reads split them)
 	eofArmed bool    // an armed read already returned EOF: the next armed read hits the deadline
 	closed   bool
+	merge    bool // io.Reader style: the last data of the stream comes together with io.EOF (and, once
+	draining bool // the relay is draining, with the reset) in one Read call
 }
 
 func (c *c06Conn) Read(p []byte) (int, error) {
@@ -158,8 +160,16 @@ func (c *c06Conn) Read(p []byte) (int, error) {
 			c.log = append(c.log, c06Ev{'d', append([]byte(nil), ev.data[:n]...)})
 			if n < len(ev.data) {
 				c.script[0].data = ev.data[n:]
-			} else {
-				c.script = c.script[1:]
+				return n, nil
+			}
+			c.script = c.script[1:]
+			if c.merge && n > 0 {
+				if len(c.script) == 0 || c.script[0].kind == 'e' {
+					return n, io.EOF
+				}
+				if c.draining && c.script[0].kind == 'r' {
+					return n, c06ErrRst
+				}
 			}
 			return n, nil
 		case 'r': // sticky: a reset connection keeps failing (the event stays at the head of the script)
@@ -212,11 +222,18 @@ var c06Drains = []string{"read", "writeto", "prefixread", "prefixconn"}
 
 // one stream case: sniff, then drain the way `drain` says; returns op and impl answer.
 func c06RunTcp(script []c06Ev, drain string, async bool) (op, out string) {
+	return c06RunTcpOpt(script, drain, async, false, 1<<16)
+}
+
+// merge: the connection returns trailing data together with EOF / reset; readSize: buffer size of the
+// relay's Read calls (small sizes drain the sniff buffer piecewise)
+func c06RunTcpOpt(script []c06Ev, drain string, async, merge bool, readSize int) (op, out string) {
 	orig := c06CopyScript(script)
-	conn := &c06Conn{script: c06CopyScript(script)}
+	conn := &c06Conn{script: c06CopyScript(script), merge: merge}
 	var cs *ConnSniffer
 	if async {
-		cs = &ConnSniffer{Conn: conn, Sniffer: NewStreamSniffer(&c06Reader{conn}, 25*time.Millisecond)}
+		// the scripts given to the async path always complete: the timeout is never meant to fire
+		cs = &ConnSniffer{Conn: conn, Sniffer: NewStreamSniffer(&c06Reader{conn}, 20*time.Second)}
 	} else {
 		cs = NewConnSniffer(conn, time.Hour)
 	}
@@ -243,7 +260,11 @@ func c06RunTcp(script []c06Ev, drain string, async bool) (op, out string) {
 		derr := c06Err(cs.dataError)
 		var relay []byte
 		var end error
-		p := make([]byte, 1<<16)
+		if cs.dataError != nil {
+			readSize = 1 << 16 // Read hands over the buffered bytes together with the latched error: one call
+		}
+		p := make([]byte, readSize)
+		conn.draining = true
 		readLoop := func() {
 			for i := 0; i < 100000; i++ {
 				n, err := cs.Read(p)
@@ -276,7 +297,7 @@ func c06RunTcp(script []c06Ev, drain string, async bool) (op, out string) {
 		if bytes.Equal(relay, want) && c06Err(end) == wantEnd {
 			intact = "1"
 		}
-		return fmt.Sprintf("res=%s nm=%s buf=%d armed=%s relay=%s end=%s intact=%s # derr=%s", res, nm, len(buf), armed, c06Hex(relay), c06Err(end), intact, derr)
+		return fmt.Sprintf("res=%s armed=%s relay=%s end=%s intact=%s # nm=%s buf=%d derr=%s", res, armed, c06Hex(relay), c06Err(end), intact, nm, len(buf), derr)
 	})
 	_ = cs.Close()
 	// the op is the script as the reads saw it, followed by what was never consumed
@@ -446,7 +467,16 @@ func TestVerifC06(t *testing.T) {
 		return out
 	}
 	tcpOp := func(script []c06Ev, drain string, async bool) string {
-		op, out := c06RunTcp(script, drain, async)
+		merge := g.r.Chance(0.4)
+		readSize := []int{1 << 16, 1 << 16, 32 << 10, 512, 7, 1}[g.r.Intn(6)]
+		if readSize < 512 && len(script) > 0 && len(script[0].data) > 600 {
+			readSize = 512 // keep byte-wise drains to small cases
+		}
+		op, out := c06RunTcpOpt(script, drain, async, merge, readSize)
+		if merge {
+			g.stats.Inc("tcp.data_with_eof_or_reset")
+		}
+		g.stats.Inc(fmt.Sprintf("tcp.read_size.%d", readSize))
 		st.Emit(op, out)
 		if strings.HasPrefix(out, "crash:") {
 			violation("panic in stream sniffer: %s  op: %.300s", out, op)
